@@ -12,7 +12,7 @@ from buidl.timelock import Locktime, Sequence
 from buidl.tx import Tx, TxIn, TxOut
 from buidl.witness import Witness
 
-from props.c12 import (G_, N_, P_, enc_point, enc_tree, mk_cb, mk_point, ref_add, ref_lift_x, ref_mul, ref_tagged)
+from props.c12 import (G_, N_, P_, enc_point, enc_tree, mk_cb, mk_point, ref_add, ref_lift_x, ref_mul, ref_root, ref_tagged)
 
 PID = "C13"
 RULE = ("Key sets of size 2..5 with mixed parities of the participant points and of the aggregate, small and "
@@ -107,23 +107,27 @@ def nonce_stream(stream):
         taproot.randbelow = old
 
 
-def run_session(privs, nonces, msg, root, points=None, tamper=None, musig=None):
+def run_session(privs, nonces, msg, root, points=None, tamper=None, musig=None, agg=None):
     """the signing flow of test_musig.py.  tamper = None | ("alter", i, delta) | ("omit", i);
-    musig = an existing MuSigTapScript object to be reused for this session"""
+    musig = an existing MuSigTapScript object to be reused for this session (the signers' object);
+    agg = the object of the aggregator (nonce_sums / compute_r / get_signature), default: the signers' object.
+    With an empty merkle root the optional argument of sign / get_signature is NOT passed (the default is used)."""
     if musig is None:
         musig = MuSigTapScript(points if points is not None else [p.point for p in privs])
+    if agg is None:
+        agg = musig
     secret_pairs, point_pairs = [], []
     with nonce_stream([k for pair in nonces for k in pair]):
         for _ in privs:
             ks, ps = musig.generate_nonces()
             secret_pairs.append(ks)
             point_pairs.append(ps)
-    sums = musig.nonce_sums(point_pairs)
-    r = musig.compute_r(sums, msg)
+    sums = agg.nonce_sums(point_pairs)
+    r = agg.compute_r(sums, msg)
     s_sum = 0
     for i, (ks, priv) in enumerate(zip(secret_pairs, privs)):
         k = musig.compute_k(ks, sums, msg)
-        part = musig.sign(priv, k, r, msg, root)
+        part = musig.sign(priv, k, r, msg, root) if root != b"" else musig.sign(priv, k, r, msg)
         if tamper and tamper[0] == "alter" and tamper[1] == i:
             part = (part + tamper[2]) % N_
         if tamper and tamper[0] == "omit" and tamper[1] == i:
@@ -131,7 +135,7 @@ def run_session(privs, nonces, msg, root, points=None, tamper=None, musig=None):
                 raise ValueError("omitted partial signature is zero")
             continue
         s_sum += part
-    return musig, musig.get_signature(s_sum, r, msg, root)
+    return musig, (agg.get_signature(s_sum, r, msg, root) if root != b"" else agg.get_signature(s_sum, r, msg))
 
 
 # ------------------------------------------------------------------ IMPL
@@ -178,12 +182,16 @@ def i_compute(pts, sums, k1, k2, msg):
 
 def i_musig_sign(pts, secret, k, r, msg, root):
     m = MuSigTapScript([mk_point(p) for p in pts])
+    if root == b"":          # the default of the optional argument
+        return m.sign(PrivateKey(secret), k, mk_point(r), msg)
     return m.sign(PrivateKey(secret), k, mk_point(r), msg, root)
 
 
 def i_get_signature(pts, s_sum, r, msg, root):
     m = MuSigTapScript([mk_point(p) for p in pts])
-    return m.get_signature(s_sum, mk_point(r), msg, root).serialize()
+    if root == b"":          # the default of the optional argument
+        return m.get_signature(s_sum, mk_point(r), msg).serialize()
+    return m.get_signature(s_sum, mk_point(r), msg, merkle_root=root).serialize()
 
 
 def i_session(parts, msg, root):
@@ -321,9 +329,12 @@ def p_session(parts, msg, root, seed):
     if m2.point != agg:
         return "aggregate key depends on the order of the participants"
     # the same participants listed and signing in another order produce a valid signature too
-    _, sig2 = run_session([privs[i] for i in order], [nonces[i] for i in order], msg, root)
+    # (the signers work on the object listing them in the permuted order, the aggregator on the first object)
+    # with fresh nonces (the aggregator's object has already served the first session with the same message)
+    nonces2 = [(r.randrange(1, N_), r.randrange(1, N_)) for _ in order]
+    _, sig2 = run_session([privs[i] for i in order], nonces2, msg, root, musig=m2, agg=musig)
     if not ref_schnorr_verify(ext.xonly(), msg, sig2.serialize()):
-        return "signature of the permuted session rejected"
+        return "signature of the permuted session (signers and aggregator on separate objects) rejected"
     # alterations
     i = r.randrange(len(privs))
     for tamper in (("alter", i, r.choice([1, N_ - 1, r.randrange(1, N_)])), ("omit", i)):
@@ -362,6 +373,31 @@ def p_session_reuse(parts, msg, msg2, root, seed):
             return f"session on a reused MuSigTapScript ({what}) raised {type(e).__name__}: {e}"
         if not ref_schnorr_verify(ext.xonly(), m, sg.serialize()):
             return f"session on a reused MuSigTapScript ({what}) produced an invalid signature"
+    # failure paths followed by a retry on the SAME object: a session whose partial signature was altered (get_signature
+    # raises), sign() by somebody who is not a participant (KeyError), r at infinity — then the honest session again
+    outsider = PrivateKey(r.randrange(1, N_))
+    try:
+        run_session(privs, nonces, msg, root, musig=musig, tamper=("alter", r.randrange(len(privs)), r.randrange(1, N_)))
+        return "get_signature accepted an altered partial signature on a reused object"
+    except Exception:
+        pass
+    for bad in (lambda: musig.sign(outsider, 5, PrivateKey(7).point, msg, root),
+                lambda: musig.sign(privs[0], 5, S256Point(None, None), msg, root),
+                lambda: musig.get_signature(0, S256Point(None, None), msg, root),
+                lambda: musig.nonce_sums([])):
+        try:
+            bad()
+        except Exception:
+            pass
+    for ks, m, what in ((nonces, msg, "after failed calls, first session"),):
+        try:
+            _, sg = run_session(privs, ks, m, root, musig=musig)
+        except Exception as e:  # noqa
+            return f"session on a reused MuSigTapScript ({what}) raised {type(e).__name__}: {e}"
+        if not ref_schnorr_verify(ext.xonly(), m, sg.serialize()):
+            return f"session on a reused MuSigTapScript ({what}) produced an invalid signature"
+        if m is msg and sg.serialize() != sig.serialize():
+            return "the first session repeated on the same object after failed calls gives another signature"
     return None
 
 
@@ -511,8 +547,7 @@ def p_finalize_real(secrets, k, signers, hash_types, seed, blanks):
     witnesses = []
     for rnd in range(2):
         tx_obj, tx_in = _tx_for(spk)
-        tx_in.witness.items = []
-        tx_in.tap_script = None
+        # the TxIn is used as constructed: default Witness(), tap_script None (never assigned by the harness)
         tx_obj.initialize_p2tr_multisig(0, cb, leaf.tap_script)
         if tx_in.witness.items != [leaf.tap_script.raw_serialize(), cb.serialize()] or tx_in.tap_script is not leaf.tap_script:
             return "initialize_p2tr_multisig did not install [script, control block] and the tap script"
@@ -528,7 +563,10 @@ def p_finalize_real(secrets, k, signers, hash_types, seed, blanks):
                 sigs.insert(r.randrange(len(sigs) + 1), b"")
         else:
             sigs.reverse()
+        handed = list(sigs)
         ok = tx_obj.finalize_p2tr_multisig(0, sigs)
+        if sigs != handed:
+            return "finalize_p2tr_multisig edited the list of signatures of its caller"
         expect = [by_key.get(x, b"") for x in sorted(p.xonly() for p in pts)][::-1]
         expect += [leaf.tap_script.raw_serialize(), cb.serialize()]
         if tx_in.witness.items != expect:
@@ -544,8 +582,233 @@ def p_finalize_real(secrets, k, signers, hash_types, seed, blanks):
     return None
 
 
+# --- audit round 4: alternative entry points, defaults, coinciding fields, per-element attributes, shared state
+def ref_num(n):
+    """encode_minimal_num on ints: the op code for 0..16, else the minimal little-endian sign-magnitude push"""
+    if n == 0:
+        return 0
+    if 1 <= n <= 16:
+        return 80 + n
+    out = bytearray()
+    while n:
+        out.append(n & 0xFF)
+        n >>= 8
+    if out[-1] & 0x80:
+        out.append(0)
+    return bytes(out)
+
+
+def _ref_lock(lock):
+    if lock is None:
+        return []
+    return [ref_num(lock[1]), 0xB1 if lock[0] == "L" else 0xB2, 0x75]
+
+
+def _ref_leaf(cmds):
+    return [0, 0xC0, [cmds, []]]
+
+
+def _ref_combine(nodes):
+    if len(nodes) == 1:
+        return nodes[0]
+    h = len(nodes) // 2
+    return [1, _ref_combine(nodes[:h]), _ref_combine(nodes[h:])]
+
+
+class _RefTrees:
+    """the tree generators of TapRootMultiSig on x-only keys (in the order the participants were listed)"""
+
+    def __init__(self, xonlys, k):
+        self.xs, self.k, self.memo = list(xonlys), k, {}
+
+    def agg(self, sub):
+        key = tuple(sorted(sub))
+        if key not in self.memo:
+            self.memo[key] = ref_keyagg(list(sub))[0].to_bytes(32, "big")
+        return self.memo[key]
+
+    def single(self, lock=None):
+        return _ref_leaf(_ref_lock(lock) + _ref_multisig_cmds(self.xs, self.k))
+
+    def multi(self, lock=None):
+        return _ref_combine([_ref_leaf(_ref_lock(lock) + _ref_multisig_cmds(list(c), self.k))
+                             for c in itertools.combinations(self.xs, self.k)])
+
+    def musig(self, lock=None):
+        return _ref_combine([_ref_leaf(_ref_lock(lock) + [self.agg(c), 0xAC]) for c in itertools.combinations(self.xs, self.k)])
+
+    def musig_single(self, lock=None):
+        return [1, self.single(lock), self.musig(lock)]
+
+    def everything(self, lock=None):
+        return [1, self.single(lock), [1, self.multi(lock), self.musig(lock)]]
+
+    def degrading(self, seq_of_level):
+        leaves = []
+        for j in range(self.k, 0, -1):
+            lock = None if j == self.k else seq_of_level(self.k - j)
+            for c in itertools.combinations(self.xs, j):
+                leaves.append(_ref_leaf(_ref_lock(lock) + _ref_multisig_cmds(list(c), j)))
+        return _ref_combine(leaves)
+
+
+def p_trms_reuse(secrets, k, lock_l, lock_s, block, seconds, seed):
+    """ONE TapRootMultiSig object asked for many trees in a row (with and without locktime / sequence, with the optional
+    internal_pubkey, with both degrading intervals, with a call that raises in between): every result equals the
+    independent reference tree (commands and merkle root) — no result depends on an earlier call, the optional
+    internal_pubkey changes nothing, locktime together with sequence raises ValueError, the block interval wins over the
+    time interval, and the caller's list of points is left alone"""
+    import random
+    r = random.Random(seed)
+    privs = [PrivateKey(s) for s in secrets]
+    pts = [p.point for p in privs]
+    given = list(pts)
+    ref = _RefTrees([p.xonly() for p in pts], k)
+    tr = TapRootMultiSig(pts, k)
+    other = PrivateKey(r.randrange(1, N_)).point
+    L, S = Locktime(lock_l), Sequence(lock_s)
+
+    def same(what, got, want):
+        if enc_tree(got) != want:
+            return f"{what}: tree differs from the reference"
+        if got.hash() != ref_root(want):
+            return f"{what}: merkle root differs from the reference"
+        return None
+
+    def raises(what, f):
+        try:
+            f()
+        except ValueError:
+            return None
+        except Exception as e:  # noqa
+            return f"{what} with locktime and sequence raised {type(e).__name__}, not ValueError"
+        return f"{what} with locktime and sequence did not raise"
+
+    if list(ref_keyagg([p.xonly() for p in pts])) != enc_point(tr.default_internal_pubkey):
+        return "default_internal_pubkey is not the aggregate of all keys"
+    musig_ok = k >= 2
+    steps = []
+
+    def by_time(d):      # an interval of 0 counts as "not given": no sequence at any level
+        return ("S", (1 << 22) | (seconds * d // 512)) if seconds else None
+
+    if musig_ok:
+        steps.append(("musig_tree()", lambda: tr.musig_tree(), ref.musig()))
+    steps += [
+        ("single_leaf(locktime)", lambda: tr.single_leaf(locktime=L), ref.single(("L", lock_l))),
+        ("RAISE", "single_leaf", lambda: tr.single_leaf(locktime=L, sequence=S)),
+        ("multi_leaf_tree(sequence)", lambda: tr.multi_leaf_tree(sequence=S), ref.multi(("S", lock_s))),
+        ("RAISE", "multi_leaf_tree", lambda: tr.multi_leaf_tree(L, S)),
+        ("RAISE", "MultiSigTapScript", lambda: MultiSigTapScript(pts, k, L, S)),
+        ("RAISE", "MuSigTapScript", lambda: MuSigTapScript(pts, L, S)),
+        ("multi_leaf_tree(locktime) positional", lambda: tr.multi_leaf_tree(L), ref.multi(("L", lock_l))),
+    ]
+    if musig_ok:
+        steps += [
+            ("RAISE", "musig_tree", lambda: tr.musig_tree(locktime=L, sequence=S)),
+            ("everything_tree(internal_pubkey)", lambda: tr.everything_tree(internal_pubkey=other), ref.everything()),
+            ("musig_and_single_leaf_tree(internal_pubkey, locktime)",
+             lambda: tr.musig_and_single_leaf_tree(other, L), ref.musig_single(("L", lock_l))),
+            ("musig_tree(sequence)", lambda: tr.musig_tree(sequence=S), ref.musig(("S", lock_s))),
+        ]
+    steps += [
+        ("degrading(block and time interval)", lambda: tr.degrading_multisig_tree(block, seconds),
+         ref.degrading(lambda d: ("S", block * d) if block else by_time(d))),
+        ("degrading(time interval)", lambda: tr.degrading_multisig_tree(sequence_time_interval=seconds), ref.degrading(by_time)),
+        ("degrading()", lambda: tr.degrading_multisig_tree(), ref.degrading(lambda d: None)),
+        ("single_leaf()", lambda: tr.single_leaf(), ref.single()),
+        ("multi_leaf_tree()", lambda: tr.multi_leaf_tree(), ref.multi()),
+    ]
+    if musig_ok:
+        steps += [("musig_tree() again", lambda: tr.musig_tree(), ref.musig()),
+                  ("musig_and_single_leaf_tree()", lambda: tr.musig_and_single_leaf_tree(), ref.musig_single())]
+    for st in steps:
+        if st[0] == "RAISE":
+            bad = raises(st[1], st[2])
+        else:
+            bad = same(st[0], st[1](), st[2])
+        if bad:
+            return bad + " (one TapRootMultiSig object, calls in a row)"
+        if pts != given or any(a is not b for a, b in zip(pts, given)) or tr.points != given or tr.k != k:
+            return f"after {st[0]} {st[1] if st[0] == 'RAISE' else ''}: the list of points of the caller / of the object was edited"
+    return None
+
+
+def p_two_inputs(secrets, k, hts0, hts1, seed):
+    """a transaction with TWO tapscript-multisig inputs that share their keys (input 0: k-of-n single leaf of all keys,
+    input 1: another threshold over the first two keys), TxIn objects exactly as constructed (default Witness, no
+    tap_script).  initialize / finalize of one input never touch the other one, each input gets its own tap script and the
+    signatures made for ITS sighash (each with its own hash type) although finalize is handed the signatures of both
+    inputs; both inputs verify"""
+    import random
+    r = random.Random(seed)
+    privs = [PrivateKey(s) for s in secrets]
+    pts = [p.point for p in privs]
+    n = len(pts)
+    sets = [(list(range(n)), k), ([0, 1], 1 if (n > 2 or k != 1) else 2)]
+    info = []
+    for idx, kk in sets:
+        tr = TapRootMultiSig([pts[i] for i in idx], kk)
+        leaf = tr.single_leaf()
+        internal = tr.default_internal_pubkey
+        cb = leaf.control_block(internal, leaf)
+        if cb is None:
+            return "no control block for the single leaf"
+        info.append((idx, kk, leaf, cb, internal.p2tr_script(leaf.hash())))
+    tx_ins = []
+    for j, (_, _, _, _, spk) in enumerate(info):
+        ti = TxIn(bytes([j + 1]) * 32, 3 - j)
+        ti._value = 600000 + 1000 * j
+        ti._script_pubkey = spk
+        tx_ins.append(ti)
+    spare = TxIn(bytes(32), 0)
+    outs = [TxOut(500000 + j, P2TRScriptPubKey(S256Point.parse_xonly(G_[0].to_bytes(32, "big")))) for j in range(2)]
+    tx_obj = Tx(1, tx_ins, outs, 0, network="signet", segwit=True)
+    if any(ti.witness.items != [] or ti.tap_script is not None for ti in tx_ins + [spare]):
+        return "a fresh TxIn has a non-empty witness or a tap script"
+    if tx_ins[0].witness is tx_ins[1].witness or tx_ins[0].witness.items is tx_ins[1].witness.items:
+        return "two fresh TxIn objects share their witness"
+    base = []
+    for j in (1, 0):
+        idx, kk, leaf, cb, spk = info[j]
+        tx_obj.initialize_p2tr_multisig(j, cb, leaf.tap_script)
+        base.insert(0, [leaf.tap_script.raw_serialize(), cb.serialize()])
+        if tx_ins[j].witness.items != base[0] or tx_ins[j].tap_script is not leaf.tap_script:
+            return f"initialize_p2tr_multisig({j}) did not install [script, control block] and the tap script on input {j}"
+        if j == 1 and (tx_ins[0].witness.items != [] or tx_ins[0].tap_script is not None):
+            return "initialize_p2tr_multisig(1) touched input 0"
+    if spare.witness.items != [] or TxIn(bytes(32), 1).witness.items != []:
+        return "initialize_p2tr_multisig leaked into the witness of an unrelated / new TxIn"
+    by_key, allsigs = [{}, {}], []
+    for j, hts in ((0, hts0), (1, hts1)):
+        idx, kk = info[j][0], info[j][1]
+        for i, ht in zip(idx[:kk], hts):
+            sg = tx_obj.get_sig_taproot(j, privs[i], ext_flag=1, hash_type=ht)
+            by_key[j][pts[i].xonly()] = sg
+            allsigs.append(sg)
+    for j in (1, 0):
+        idx, kk, leaf, cb, spk = info[j]
+        other_before = list(tx_ins[1 - j].witness.items)
+        sigs = list(allsigs)
+        r.shuffle(sigs)
+        ok = tx_obj.finalize_p2tr_multisig(j, sigs)
+        expect = [by_key[j].get(x, b"") for x in sorted(pts[i].xonly() for i in idx)][::-1] + base[j]
+        if tx_ins[j].witness.items != expect:
+            return f"witness of input {j} after finalize is not its own signatures in key order: {[len(x) for x in tx_ins[j].witness.items]}"
+        if tx_ins[1 - j].witness.items != other_before:
+            return f"finalize_p2tr_multisig({j}) changed the witness of input {1 - j}"
+        if not ok:
+            return f"finalize_p2tr_multisig({j}) returned {ok} for a fully signed input"
+    for j in (0, 1):
+        if not tx_obj.verify_input(j):
+            return f"input {j} does not verify"
+    if spare.witness.items != []:
+        return "finalize_p2tr_multisig leaked into the witness of an unrelated TxIn"
+    return None
+
+
 PROPS = {k: _quiet(v) for k, v in {"finalize_real": p_finalize_real, "session": p_session, "session_reuse": p_session_reuse, "order": p_order, "ktree": p_ktree,
-                                   "keypath": p_keypath}.items()}
+                                   "keypath": p_keypath, "trms_reuse": p_trms_reuse, "two_inputs": p_two_inputs}.items()}
 
 # ------------------------------------------------------------------ generators
 _pts = {}
@@ -650,7 +913,10 @@ def gen_finalize(ctx):
                 ("len-1", [s0, b"\x00"]), ("len-63", [s0[:63], s1]), ("len-66", [s1, s0 + b"\x00\x00"]), ("len-32", [s0[:32]]),
                 ("r-not-field", [bad_r, s0]), ("r-off-curve", [s1, off_curve]), ("s>=n", [big_s, s0, s1]),
                 ("all-empty", [b"", b""]), ("none", []), ("same-twice", [s0, s0]),
-                ("flipped-bit", [bytes([s0[0] ^ 1]) + s0[1:], s1])):
+                ("flipped-bit", [bytes([s0[0] ^ 1]) + s0[1:], s1])) + ((
+                # audit round 4: 65 bytes with an explicit hash-type byte 00, signatures of one byte class
+                ("ht-byte-00", [s0 + b"\x00", s1]), ("ht-byte-00-only", [s0 + b"\x00"]), ("all-zero", [bytes(64), s1]),
+                ("all-ff", [s0, b"\xff" * 64]), ("all-zero-65", [bytes(65), s0])) if n == 2 or ctx.tier == "thorough" else ()):
             ctx.label("finalize/" + label)
             yield ("corr", "finalize", [items, tp, sigs, table])
         # uninitialised input, too few items, second call on an already finalized witness
@@ -659,6 +925,12 @@ def gen_finalize(ctx):
         yield ("corr", "finalize", [[], tp, [s0], table])
         yield ("corr", "finalize", [[s0, b""] + items, tp, [s0, s1], table])
         yield ("corr", "finalize", [items, [[]], [s0], table])
+        # hand-built tap scripts (not reachable through MultiSigTapScript.__init__): one key in two slots, keys not sorted
+        if n == 2 or ctx.tier == "thorough":
+            ctx.label("finalize/key-in-two-slots")
+            yield ("corr", "finalize", [items, [[sorted_pts[0], sorted_pts[0], sorted_pts[1]]], [s1, s0], table])
+            ctx.label("finalize/unsorted-points")
+            yield ("corr", "finalize", [items, [sorted_pts[::-1]], [s0, s1], table])
         # the real flow: every number of signers for a sampled threshold
         for m in range(0, n + 1):
             if ctx.tier != "thorough" and m not in (0, 1, n) and r.random() < 0.5:
@@ -736,9 +1008,26 @@ def generate(ctx):
             ctx.label(f"session/size={size}/root={'yes' if root else 'no'}/aggparity={agg.parity}")
             yield ("corr", "session", [parts, msg, root])
             yield ("prop", "session", [parts, msg, root, r.getrandbits(30)])
-            if len(parts) <= 3 and r.random() < 0.5:
+            if len(parts) <= 3 and ((size == 2 and rep == 0) or r.random() < 0.5):
                 ctx.label("session/reused-object")
                 yield ("prop", "session_reuse", [parts, msg, ctx.rbytes(32), root, r.getrandbits(30)])
+    # --- audit round 4: byte classes that random payloads never produce.  A merkle root / message made of 00 or ff
+    # bytes (an all-zero root is still a root: the tweaked branch), keys whose x-only encoding starts with 00 / ff
+    special = [153, 6, 1158, 201]         # x-only keys 00.. (even y), ff.. (odd y), 00.. (odd y), ff.. (even y)
+    assert [ref_mul(s, G_)[0] >> 248 for s in special] == [0, 255, 0, 255]
+    assert [ref_mul(s, G_)[1] & 1 for s in special] == [0, 1, 1, 0]
+    sec2 = key_set(r, 2)
+    for keys, msg, root, what in ((sec2, bytes(32), b"", "msg=00"), (special[:2], b"\xff" * 32, bytes(32), "msg=ff,root=00,keys=00/ff"),
+                                  (special[2:], ctx.rbytes(32), b"\xff" * 32, "root=ff,keys=00/ff"), (sec2, bytes(32), bytes(32), "msg=00,root=00")):
+        parts = [[s, rand_nonce(r), rand_nonce(r)] for s in keys]
+        ctx.label("session/byteclass/" + what)
+        yield ("corr", "session", [parts, msg, root])
+    parts = [[s, r.randrange(1, N_), r.randrange(1, N_)] for s in special[1:3]]
+    yield ("prop", "session", [parts, bytes(32), bytes(32), r.getrandbits(30)])
+    ctx.label("keyagg/xonly-starts-00-or-ff")
+    yield ("corr", "musig_init", [[enc_point(point_of(s)) for s in special[:2]]])
+    yield ("corr", "musig_init", [[enc_point(point_of(s)) for s in special]])
+    yield ("prop", "order", [special[:3], r.getrandbits(30)])
     # every combination of (aggregate parity, R parity, tweaked-key parity) with a merkle root: the four sign
     # branches of sign() and the two of get_signature() (Example C13_toy_parity_branches is the Coq-side counterpart)
     want = set(itertools.product((0, 1), repeat=3))
@@ -817,3 +1106,22 @@ def generate(ctx):
         yield ("prop", "keypath", [secrets, k, r.randrange(5) if k >= 2 else r.randrange(2), r.getrandbits(30)])
     yield ("corr", "tree", [1, [enc_point(point_of(s)) for s in base[:3]], 17, []])
     yield ("corr", "degrading", [[enc_point(point_of(s)) for s in base[:2]], 2, 1, 2 ** 32])
+    # --- audit round 4: one TapRootMultiSig object asked for many trees (optional arguments, failing calls in between,
+    # locktime 0 / sequence 0 which are falsy but not None, both degrading intervals); two multisig inputs in one Tx
+    sec = key_set(r, 3, [0, 1, 1])
+    ctx.label("trms_reuse/2-of-3")
+    yield ("prop", "trms_reuse", [sec, 2, 500000, 144, 10, 5120, r.getrandbits(30)])
+    ctx.label("trms_reuse/2-of-2/lock=0")
+    yield ("prop", "trms_reuse", [sec[:2], 2, 0, 0, 1, 512, r.getrandbits(30)])
+    ctx.label("trms_reuse/1-of-2")
+    yield ("prop", "trms_reuse", [sec[1:], 1, 128, 17, 0, 1024, r.getrandbits(30)])
+    if ctx.tier == "thorough":
+        for n, k, ll, ss, bl, se in ((3, 3, 16, 0x8000, 3, 0), (4, 3, 17, 65535, 0, 51200), (4, 2, 2 ** 32 - 1, 0x400000 | 7, 144, 512),
+                                     (5, 4, 1, 1, 1, 1)):
+            yield ("prop", "trms_reuse", [key_set(r, n), k, ll, ss, bl, se, r.getrandbits(30)])
+    ctx.label("two_inputs/n=2")
+    yield ("prop", "two_inputs", [key_set(r, 2), 2, [r.choice(HASH_TYPES), r.choice(HASH_TYPES)], [r.choice(HASH_TYPES), 0], r.getrandbits(30)])
+    if ctx.tier == "thorough":
+        for n, k in ((2, 1), (3, 2), (3, 3), (4, 2)):
+            yield ("prop", "two_inputs", [key_set(r, n), k, [r.choice(HASH_TYPES) for _ in range(k)],
+                                          [r.choice(HASH_TYPES), r.choice(HASH_TYPES)], r.getrandbits(30)])
